@@ -109,7 +109,7 @@ func main() {
 		ID:    "C14",
 		Level: "exploration",
 		Race:  true,
-		Rule: "seeded random task graphs: 2…8 top-level tasks (2…5 in scripts), wait list = subset (≤3) of earlier tasks, bodies of 1–3 commands (probe or nested pip:run with waits on earlier nested siblings), failing commands (return an error / append an error to the scope) at any position, now and then a submission whose wait list names no task, itself, a not yet submitted task or a refused task; late: a task submitted through the Runner service from inside a running body while TasksManager.Wait() is already in progress (own context, works a while, may fail) – Wait must return after its last event and report its failure; sandbox-fail: a prerequisite run in a sandbox registered through the sandboxes manager whose failure is only the value returned by Sandbox.Run – it must end with errors, its dependant must not run and must end failed, Wait must report an error; firsts: 30…60 rounds in which 3…8 goroutines make the very first submissions of a fresh scope at the same moment (nobody asked for its task manager before; also in every other shared-mode program with several submitters) – every accepted submission is a task of the scope's one manager and Wait covers it; refused: a submission with a sandbox name that cannot be resolved (directly or from a running body) is refused and leaves no task behind, a wait list naming it is refused, Wait returns; " +
+		Rule: "seeded random task graphs: 2…8 top-level tasks (2…5 in scripts), wait list = subset (≤3) of earlier tasks, bodies of 1–3 commands (probe or nested pip:run with waits on earlier nested siblings), failing commands (return an error / append an error to the scope) at any position, now and then a submission whose wait list names no task, itself, a not yet submitted task or a refused task; late: a task submitted through the Runner service from inside a running body while TasksManager.Wait() is already in progress (own context, works a while, may fail) – Wait must return after its last event and report its failure; sandbox-fail: a prerequisite run in a sandbox registered through the sandboxes manager whose failure is only the value returned by Sandbox.Run – it must end with errors, its dependant must not run and must end failed, Wait must report an error; firsts: 30…60 rounds in which 3…8 goroutines make the very first submissions of a fresh scope at the same moment (nobody asked for its task manager before; also in every other shared-mode program with several submitters) – every accepted submission is a task of the scope's one manager and Wait covers it; refused: a submission with a sandbox name that cannot be resolved (directly or from a running body) is refused and leaves no task behind, a wait list naming it is refused, Wait returns; reader: 2…6 commands in one plain reader (no ReadByte) are run one by one with Terminal.RunCommandFromReader – each call runs the next command and takes exactly its bytes; " +
 			"driven through PipRunner.Run from 1…4 goroutines (each submission in its own context, or all in one scope) and as terminal scripts (strict / non-strict, with pip:wait); prerequisites hold a probe until their dependants have been submitted; " +
 			"distinct = distinct programs (mode, wait lists, bodies); non-trivial = the program has a wait edge and at least one probe event was logged",
 		Assumptions: []string{
@@ -125,7 +125,7 @@ func main() {
 		RaceDecides: false,
 		Finish: func(t *sup.Totals) string {
 			need := []string{
-				"programs_separated", "programs_shared", "programs_script", "late_programs", "sandbox_fail_programs", "rounds_of_simultaneous_first_submissions", "refused_submissions_that_left_nothing_behind", "programs_whose_first_submissions_created_the_manager",
+				"programs_separated", "programs_shared", "programs_script", "late_programs", "sandbox_fail_programs", "rounds_of_simultaneous_first_submissions", "refused_submissions_that_left_nothing_behind", "commands_run_one_by_one_from_a_plain_reader", "programs_whose_first_submissions_created_the_manager",
 				"probe_events",
 				"wait_edges_checked_on_a_dependant_that_ran",
 				"tasks_with_a_failed_prerequisite_checked",
